@@ -245,3 +245,8 @@ def st_map_object_history(be, hiN):
 
 FACETS.append(Facet('np/map-object-histories', f_map_object_history, strategy=lambda t: st_map_object_history('np', 3), examples={'quick': 800, 'thorough': 30000}, shards={'quick': 2, 'thorough': 8}))
 FACETS.append(Facet('torch/map-object-histories', f_map_object_history, strategy=lambda t: st_map_object_history('torch', 3), examples={'quick': 300, 'thorough': 10000}, shards={'quick': 1, 'thorough': 4}, backend='torch'))
+
+
+# ---- round trips on registers of 9..70 qubits with NumPy qubit labels (shared with C09: forward against the reference product, then backward)
+FACETS.append(Facet('np/large-registers', c09.f_big_circuit, strategy=lambda t: c09.st_big_circuit('np'), examples={'quick': 300, 'thorough': 15000}, shards={'quick': 2, 'thorough': 8}))
+FACETS.append(Facet('torch/large-registers', c09.f_big_circuit, strategy=lambda t: c09.st_big_circuit('torch', ['rot']), examples={'quick': 100, 'thorough': 5000}, shards={'quick': 1, 'thorough': 4}, backend='torch'))
